@@ -151,6 +151,14 @@ Theorem model_is_source_C17_WrapNewton : forall A : Arith, @SrcEqWrapNewton.mode
 Proof. intros A. exact SrcEqWrapNewton.model_is_source_WrapNewton_lemma. Qed.
 Check model_is_source_C17_WrapNewton : forall A : Arith, @SrcEqWrapNewton.model_is_source_WrapNewton A.
 Print Assumptions model_is_source_C17_WrapNewton.
+(* ---- the callee Vec64::norm_inf of the vector solvers: the regenerated function (gen/SrcVec64.v, f64::abs instantiated by
+   the arithmetic's abs) is the loop formulation Newton.norm_inf (NReal _) the Newton model calls *)
+Theorem model_is_source_C17_norm_inf : forall (F : SArith) (v : list (T (SA F))),
+  OV.gen.SrcVec64.s_norm_inf abs v = OV.Model.Newton.norm_inf (OV.Model.Newton.NReal (SA F)) v.
+Proof. intros F v. exact (SrcEqNewton.callee_norm_inf v). Qed.
+Check model_is_source_C17_norm_inf : forall (F : SArith) (v : list (T (SA F))),
+  OV.gen.SrcVec64.s_norm_inf abs v = OV.Model.Newton.norm_inf (OV.Model.Newton.NReal (SA F)) v.
+Print Assumptions model_is_source_C17_norm_inf.
 
 (* ======================================================================== C18_r2c2.v.txt *)
 (* ---- tie of the model to the source of this run (package r2c2): gen/SrcNewton.v / gen/SrcNewtonC.v are regenerated from
